@@ -327,7 +327,9 @@ func (*Ufs) Walk(req *SrvReq) {
 		path = p
 	}
 
-	nfid.path = path
+	if i == len(tc.Wname) {
+		nfid.path = path
+	}
 	req.RespondRwalk(wqids[0:i])
 }
 
